@@ -132,6 +132,7 @@ def check_tables(run: Run, tt: list[str]) -> None:
     cls = pm.cls("Parser")
     # (function, loop variable type expressions, sinks, exempt kinds with reason)
     tables = []
+    # (the locals named here are canonicalised by octacheck.localnames, whatever the repository calls them)
     f1 = cls.methods["_reconstruct_pattern_from_tokens"]
     tables.append((f1, {"token.type"}, {"parts"}, {}))
     f2 = cls.methods["_consume_bracket_annotation"]
